@@ -10,6 +10,7 @@
 From Coq Require Import List Bool ZArith Lia Arith ZifyNat.
 From PC Require Import Base.Outcome Base.Py.
 Import ListNotations.
+Local Open Scope nat_scope.
 
 Ltac Zify.zify_post_hook ::= Z.div_mod_to_equations.
 
